@@ -409,7 +409,10 @@ class Cluster(object):
             if i == nid:
                 self.net.up.discard((i, j))
         for (i, j) in list(self.net.chan):
-            if i == nid or j == nid:
+            if j == nid:
+                self.net.chan[(i, j)] = []
+            elif i == nid and not (keep_files and (j, nid) in self.net.up):
+                # (a killed process: what it had already sent still reaches every peer that has not noticed yet)
                 self.net.chan[(i, j)] = []
 
     def close(self):
@@ -541,6 +544,7 @@ class Cluster(object):
             i, j = act[1], act[2]
             node = self.nodes[i]
             self.net.up.discard((i, j))
+            self.net.chan[(j, i)] = []
             tr = self.net.tr[i]
             if j in tr.ro_ids:
                 rn = tr.ro_ids.pop(j)
